@@ -1,6 +1,6 @@
 // ---- ratio_lemmas.rs: divisibility vocabulary for the rational units (C04) ---------------------------------
 // gcd is specified by divisibility only (DESIGN.md section 4): there is no executable gcd in the specs.
-pub open spec fn divides(d: int, n: int) -> bool { d != 0 && n % d == 0 }
+pub open spec fn divides(d: int, n: int) -> bool { d > 0 && n % d == 0 }
 
 pub open spec fn is_gcd(g: int, a: int, b: int) -> bool {
     g > 0 && divides(g, a) && divides(g, b)
@@ -15,7 +15,7 @@ pub open spec fn wf_ratio(n: int, d: int) -> bool {
 }
 
 pub proof fn lemma_divides_intro(d: int, k: int, n: int)
-    requires n == k * d, d != 0
+    requires n == k * d, d > 0
     ensures divides(d, n)
 {
     vstd::arithmetic::div_mod::lemma_mod_multiples_basic(k, d);
@@ -97,4 +97,154 @@ pub proof fn lemma_divides_neg(d: int, n: int)
     let q = n / d;
     assert(-n == (-q) * d) by (nonlinear_arith) requires n == q * d;
     lemma_divides_intro(d, -q, -n);
+}
+
+pub proof fn lemma_wf_zero()
+    ensures wf_ratio(0, 1)
+{
+    lemma_one_divides(0);
+    lemma_one_divides(1);
+}
+
+pub proof fn lemma_divides_trans(a: int, b: int, c: int)
+    requires divides(a, b), divides(b, c)
+    ensures divides(a, c)
+{
+    lemma_divides_elim(a, b);
+    lemma_divides_elim(b, c);
+    let k1 = b / a;
+    let k2 = c / b;
+    let k = k2 * k1;
+    assert(c == k * a) by (nonlinear_arith) requires c == k2 * b, b == k1 * a, k == k2 * k1;
+    lemma_divides_intro(a, k, c);
+}
+
+// truncating division (rounds toward zero), divisor > 0
+pub open spec fn tdiv(a: int, b: int) -> int { if a >= 0 { a / b } else { -((-a) / b) } }
+
+// cancel a common divisor g of |n| and d: value preserved, denominator stays positive
+pub proof fn lemma_cancel(n: int, d: int, g: int, n1: int, d1: int)
+    requires d > 0, divides(g, rabs(n)), divides(g, d), n1 == tdiv(n, g), d1 == d / g
+    ensures n1 * d == n * d1, d1 >= 1, rabs(n) == rabs(n1) * g, d == d1 * g, (n != 0 ==> n1 != 0), (n == 0 ==> n1 == 0)
+{
+    lemma_exact_div(rabs(n), g);
+    lemma_exact_div(d, g);
+    let a1 = rabs(n) / g;
+    if n >= 0 {
+        assert(n1 == a1);
+        assert(n1 * d == n * d1) by (nonlinear_arith) requires n == n1 * g, d == d1 * g;
+    } else {
+        assert(n1 == -a1);
+        assert(n1 * d == n * d1) by (nonlinear_arith) requires -n == a1 * g, n1 == -a1, d == d1 * g;
+    }
+    if n == 0 {
+        assert(a1 == 0) by (nonlinear_arith) requires 0 == a1 * g, g > 0;
+    }
+}
+
+// Repr::reduce: dividing by the gcd gives the canonical form
+pub proof fn lemma_reduce(n: int, d: int, g: int, n1: int, d1: int)
+    requires d > 0, n != 0, is_gcd(g, rabs(n), d), n1 == tdiv(n, g), d1 == d / g
+    ensures n1 * d == n * d1, wf_ratio(n1, d1)
+{
+    lemma_cancel(n, d, g, n1, d1);
+    lemma_gcd_quot_coprime(g, rabs(n), d, rabs(n1), d1);
+}
+
+// Repr::reduce_with_hint: gcd(gcd(hint, n), d) divides both |n| and d
+pub proof fn lemma_hint_gcd_divides(h: int, n: int, d: int, g: int)
+    requires exists|g1: int| is_gcd(g1, rabs(h), rabs(n)) && #[trigger] is_gcd(g, rabs(g1), rabs(d)), d > 0
+    ensures divides(g, rabs(n)), divides(g, d)
+{
+    let g1 = choose|g1: int| is_gcd(g1, rabs(h), rabs(n)) && #[trigger] is_gcd(g, rabs(g1), rabs(d));
+    lemma_divides_trans(g, g1, rabs(n));
+}
+
+pub proof fn lemma_mod_abs(n: int, m: int)
+    requires m > 0, rabs(n) % m == 0
+    ensures n % m == 0
+{
+    if n < 0 {
+        lemma_divides_neg(m, -n);
+    }
+}
+
+// Repr::reduce2: shifting both parts by z <= min(tz(n), tz(d)) bits preserves the value
+pub proof fn lemma_reduce2(n: int, d: int, nz: int, dz: int, z: int)
+    requires d > 0, n != 0, 0 <= z <= nz, z <= dz,
+        rabs(n) % pow2(nz as nat) as int == 0, d % pow2(dz as nat) as int == 0
+    ensures (n / pow2(z as nat) as int) * d == n * (d / pow2(z as nat) as int), d / pow2(z as nat) as int >= 1
+{
+    let m = pow2(z as nat) as int;
+    vstd::arithmetic::power2::lemma_pow2_pos(z as nat);
+    vstd::arithmetic::power2::lemma_pow2_pos(nz as nat);
+    vstd::arithmetic::power2::lemma_pow2_pos(dz as nat);
+    vstd::arithmetic::power2::lemma_pow2_pos((nz - z) as nat);
+    vstd::arithmetic::power2::lemma_pow2_pos((dz - z) as nat);
+    vstd::arithmetic::power2::lemma_pow2_adds((nz - z) as nat, z as nat);
+    vstd::arithmetic::power2::lemma_pow2_adds((dz - z) as nat, z as nat);
+    let mn = pow2(nz as nat) as int;
+    let md = pow2(dz as nat) as int;
+    lemma_divides_intro(m, pow2((nz - z) as nat) as int, mn);
+    lemma_divides_intro(m, pow2((dz - z) as nat) as int, md);
+    lemma_divides_trans(m, mn, rabs(n));
+    lemma_divides_trans(m, md, d);
+    lemma_mod_abs(n, m);
+    lemma_divides_elim(m, n);
+    lemma_exact_div(d, m);
+    let n1 = n / m;
+    let d1 = d / m;
+    assert(n1 * d == n * d1) by (nonlinear_arith) requires n == n1 * m, d == d1 * m;
+}
+
+pub proof fn lemma_tdiv_exact(n: int, g: int)
+    requires divides(g, rabs(n))
+    ensures n == tdiv(n, g) * g, rabs(n) == rabs(tdiv(n, g)) * g, (n != 0 ==> tdiv(n, g) != 0)
+{
+    lemma_exact_div(rabs(n), g);
+    let a1 = rabs(n) / g;
+    if n < 0 {
+        assert(n == (-a1) * g) by (nonlinear_arith) requires -n == a1 * g;
+    }
+}
+
+// ---- value identities of the rational operators (cross-multiplied) ----
+pub proof fn lemma_prod4(x: int, y: int, gx: int, gy: int)
+    ensures (x * gx) * (y * gy) == (x * y) * (gx * gy)
+{
+    assert((x * gx) * (y * gy) == (x * y) * (gx * gy)) by (nonlinear_arith);
+}
+
+// a/b * c/d with a = a1*g1, d = d1*g1, b = b1*g2, c = c1*g2
+pub proof fn lemma_mul_value(a: int, b: int, c: int, d: int, g1: int, g2: int, a1: int, b1: int, c1: int, d1: int)
+    requires a == a1 * g1, d == d1 * g1, b == b1 * g2, c == c1 * g2
+    ensures (a1 * c1) * (b * d) == (a * c) * (b1 * d1)
+{
+    lemma_prod4(b1, d1, g2, g1);
+    lemma_prod4(a1, c1, g1, g2);
+    let n = a1 * c1; let m = b1 * d1; let gg = g1 * g2; let hh = g2 * g1;
+    assert(n * (m * hh) == (n * gg) * m) by (nonlinear_arith) requires hh == g2 * g1, gg == g1 * g2;
+}
+
+// (a/b) / (c/d) with a = a1*g1, c = s*c1*g1 (s = sign of c), b = b1*g2, d = d1*g2
+pub proof fn lemma_div_value(a: int, b: int, c: int, d: int, g1: int, g2: int, a1: int, b1: int, c1: int, d1: int, s: int)
+    requires a == a1 * g1, c == s * (c1 * g1), b == b1 * g2, d == d1 * g2, s == 1 || s == -1
+    ensures ((a1 * d1) * s) * (b * c) == (a * d) * (b1 * c1)
+{
+    lemma_prod4(a1, d1, g1, g2);
+    lemma_prod4(b1, c1, g2, g1);
+    let n = a1 * d1; let m = b1 * c1; let gg = g1 * g2; let hh = g2 * g1;
+    let cc = c1 * g1;
+    assert(b * c == s * (m * hh)) by (nonlinear_arith) requires b == b1 * g2, c == s * cc, (b1 * g2) * cc == m * hh, cc == c1 * g1;
+    assert((n * s) * (s * (m * hh)) == (n * gg) * m) by (nonlinear_arith) requires hh == g2 * g1, gg == g1 * g2, s == 1 || s == -1;
+}
+
+// a/b + c/d through g = gcd(b, d): numerator N = ddg*a + bg*c over D = b*ddg, then reduced to n/dn
+pub proof fn lemma_add_hint_value(a: int, b: int, c: int, d: int, g: int, ddg: int, bg: int, nn: int, dd: int, n: int, dn: int)
+    requires d == ddg * g, b == bg * g, nn == ddg * a + bg * c, dd == b * ddg, n * dd == nn * dn
+    ensures n * (b * d) == (a * d + c * b) * dn
+{
+    assert(nn * g == a * d + c * b) by (nonlinear_arith) requires d == ddg * g, b == bg * g, nn == ddg * a + bg * c;
+    assert(dd * g == b * d) by (nonlinear_arith) requires d == ddg * g, dd == b * ddg;
+    assert(n * (dd * g) == (nn * g) * dn) by (nonlinear_arith) requires n * dd == nn * dn;
 }
